@@ -92,6 +92,23 @@ CLAIMED = {
              "re-parse equality. The add_record family reaches the indices through pointers-to-member, outside E-BOUNDS' "
              "language: its invariant obligations are carried by R3's shape rules, not proved.",
     ),
+    "C11": dict(
+        category="other",
+        design_ref="DESIGN.md section 3 / C11",
+        technique="static analysis: table-agreement rules over the clang AST (setter/getter/RADIOTAP_METADATA), "
+                  "must-pass-through on the CFG, finite evaluation of the re-padding comparison chain, and affine "
+                  "(linear-equality) invariant checking of the writer's offset bookkeeping (vlib/affine.py)",
+        text="Structural part. Decides: (R1) every field setter's flag and encoded length, the getter's flag and decode "
+             "width and the shared size/alignment table agree, and each settable field's table alignment is its natural "
+             "alignment; (R2) writer and parser take size/alignment only from the table and align from the RadioTap header "
+             "start; (R3) it_len/FCS are derived at serialisation; (R4) an inserted field's present bit is always recorded; "
+             "(R5) one re-padding step leaves exactly the needed padding for all (existing, needed) pairs; (R6) "
+             "`offset == offset0 + i + D` is an inductive invariant of update_paddings and every buffer edit addresses the "
+             "padding run being fixed - the rule that found the order-dependent layout corruption (fixed, 9ffa2d0).",
+        note="NOT decided: last-write-wins and canonical layout over arbitrary setter sequences as a whole (the rules are "
+             "necessary local conditions of it: table agreement, alignment origin, single-step correctness, cursor "
+             "invariant), extended present words / vendor namespaces, parsing of hostile headers (C01).",
+    ),
     "C12": dict(
         category="other",
         design_ref="DESIGN.md section 3 / C12",
